@@ -61,6 +61,8 @@ class Contract:
         self.pure = kw.get("pure", False)
         self.verify = kw.get("verify", True)            # False: assumed contract (trusted), listed in evidence
         self.ghost_after = list(kw.get("ghost_after", []))
+        self.closed_after_calls = kw.get("closed_after_calls", False)   # restate the closed-heap facts after every callee that allocates
+        self.dictstore = kw.get("dictstore", "either")    # "update": every d[k] = v overwrites (obligation); "insert": adds a new key
         self.note = kw.get("note", "")
         self.env = dict(kw.get("env", {}))
         self.nla = kw.get("nla", "native")                # "uf": products/quotients of two symbolic reals are uninterpreted (sound abstraction)
@@ -118,6 +120,12 @@ class Registry:
         proved (obligation kind `cut`) and then kept as a lemma for the rest of the path"""
         self.cuts = getattr(self, "cuts", {})
         self.cuts.setdefault((qname, after), []).extend(_clauses(clauses, set(props.split())))
+
+    def assume_lemma(self, qname, after, clauses, why, props=""):
+        """an UNCHECKED fact assumed after the statement tagged `after` (a lemma whose proof is outside the contract language);
+        every use is reported in the evidence (assumptions / trusted_base) together with `why`"""
+        self.lemmas = getattr(self, "lemmas", {})
+        self.lemmas.setdefault((qname, after), []).append((_clauses(clauses, set(props.split())), why))
 
     def opaque(self, name, params, text, ret="real"):
         """spec function kept uninterpreted; its definition (the text) is revealed only in units whose contract lists it
